@@ -278,6 +278,11 @@ class Impl:
             from flodym.lifetime_models import NormalLifetime
             NormalLifetime(dims=self.get(t[1], DimensionSet), time_letter=t[2], inflow_at=t[3], mean=3.0, std=1.0)
             return "ok"
+        if op == "mkltp":
+            from flodym.lifetime_models import NormalLifetime
+            NormalLifetime(dims=self.get(t[1], DimensionSet), time_letter=t[2], inflow_at=t[3],
+                           mean=self.get(t[4], FlodymArray), std=1.0)
+            return "ok"
         if op == "dump":
             return "ok " + fmt_arr(self.get(t[1], FlodymArray))
         if op == "dumpall":
